@@ -68,3 +68,39 @@ V("c11-twin-rename-local", "C11", "-", "dask_array/core/_blockwise_funcs.py",
 V("c11-twin-pop-explicit", "C11", "-", "dask_array/_collection.py",
   '        for cached in ("_lowered_expr", "_lowered_expr_optimize_graph", "_cached_dask_keys"):\n            self.__dict__.pop(cached, None)\n',
   '        self.__dict__.pop("_lowered_expr", None)\n        self.__dict__.pop("_lowered_expr_optimize_graph", None)\n        self.__dict__.pop("_cached_dask_keys", None)\n', twin=True)
+
+# ---------------------------------------------------------------------------- C03
+V("c03-bridge-deleted", "C03", "R03.1", "dask_array/_materialize.py",
+  "            expr = _lower(expr.rechunk(chunks), optimize_graph=False)\n", "            pass\n", expect="_materialize")
+V("c03-match-inverted", "C03", "R03.1", "dask_array/_materialize.py",
+  "        if not _chunks_match(expr.chunks, chunks):", "        if _chunks_match(expr.chunks, chunks):", expect="_materialize")
+V("c03-chunks-captured-late", "C03", "R03.1", "dask_array/_materialize.py",
+  "    chunks = expr.chunks\n\n    expr = _lower(expr, optimize_graph)\n", "    expr = _lower(expr, optimize_graph)\n    chunks = expr.chunks\n", expect="_materialize")
+V("c03-bridge-to-optimized-chunks", "C03", "R03.1", "dask_array/_materialize.py",
+  "expr = _lower(expr.rechunk(chunks), optimize_graph=False)", "expr = _lower(expr.rechunk(expr.chunks), optimize_graph=False)", expect="_materialize")
+V("c03-freeze-no-compare", "C03", "R03.2", "dask_array/_expr.py",
+  "        if _chunks_match(array.chunks, self._chunks):\n            return lowered.setdefault(self._name, array)",
+  "        if len(array.chunks) == len(self._chunks):\n            return lowered.setdefault(self._name, array)", expect="ChunksFreeze.lower_once")
+V("c03-freeze-unsettled-child", "C03", "R03.2", "dask_array/_expr.py",
+  "        array = self.array\n        while True:\n            new = array.lower_once(lowered)\n            if new._name == array._name:\n                break\n            array = new\n",
+  "        array = self.array\n", expect="ChunksFreeze.lower_once")
+V("c03-override-chunks-from-child", "C03", "R03.3", "dask_array/_expr.py",
+  "    _parameters = [\"array\", \"_chunks\"]\n\n    @functools.cached_property\n    def _name(self):\n        return f\"chunks-override-{self.deterministic_token}\"\n\n    @functools.cached_property\n    def _meta(self):\n        return self.array._meta\n\n    @functools.cached_property\n    def chunks(self):\n        return self._chunks\n",
+  "    _parameters = [\"array\", \"_chunks\"]\n\n    @functools.cached_property\n    def _name(self):\n        return f\"chunks-override-{self.deterministic_token}\"\n\n    @functools.cached_property\n    def _meta(self):\n        return self.array._meta\n\n    @functools.cached_property\n    def chunks(self):\n        return self.array.chunks\n",
+  expect="ChunksOverride.chunks")
+V("c03-rootalias-layer-wrong-source", "C03", "R03.3", "dask_array/_expr.py",
+  "        for idx in product(*(range(len(c)) for c in self.chunks)):\n            out_key = (self._name,) + idx\n            in_key = (self.array._name,) + idx\n",
+  "        for idx in product(*(range(len(c)) for c in self.chunks)):\n            out_key = (self._name,) + idx\n            in_key = (self.array._name,) + idx[::-1]\n",
+  expect="RootAlias._layer", )
+V("c03-array-chunks-from-lowered", "C03", "R03.4", "dask_array/_collection.py",
+  "    @property\n    def chunks(self):\n        return self.expr.chunks\n", "    @property\n    def chunks(self):\n        return self._lowered_expr.chunks\n", expect="Array.chunks")
+V("c03-twin-rename-local", "C03", "-", "dask_array/_materialize.py", None, None, twin=True, edits=[
+  ("dask_array/_materialize.py", "    chunks = expr.chunks\n", "    advertised = expr.chunks\n"),
+  ("dask_array/_materialize.py", "        if not _chunks_match(expr.chunks, chunks):", "        if not _chunks_match(expr.chunks, advertised):"),
+  ("dask_array/_materialize.py", "            if any(math.isnan(s) for dim in chunks for s in dim):", "            if any(math.isnan(s) for dim in advertised for s in dim):"),
+  ("dask_array/_materialize.py", "                    f\"({chunks} -> {expr.chunks}) and the advertised chunks \"", "                    f\"({advertised} -> {expr.chunks}) and the advertised chunks \""),
+  ("dask_array/_materialize.py", "            expr = _lower(expr.rechunk(chunks), optimize_graph=False)", "            expr = _lower(expr.rechunk(advertised), optimize_graph=False)"),
+])
+V("c03-twin-positive-match-form", "C03", "-", "dask_array/_expr.py",
+  "        if _chunks_match(array.chunks, self._chunks):\n            return lowered.setdefault(self._name, array)\n        if any(math.isnan(s) for dim in self._chunks for s in dim):",
+  "        if not _chunks_match(array.chunks, self._chunks):\n            pass\n        else:\n            return lowered.setdefault(self._name, array)\n        if any(math.isnan(s) for dim in self._chunks for s in dim):", twin=True)
